@@ -773,11 +773,17 @@ def families():
             o = pk.opt[2][0]
             out.append((o[0] + 3, 'low byte of the first option length'))
         return out
-    for skn, tq in (('q_opt2', 2), ('r_a_aaaa', 3), ('r_cname_chain', 2), ('r_mx_soa', 2), ('r_optmid', 2)):
+    # measured: tractable (8-140 s) are the count bytes, the OPT/option length bytes and the data
+    # length of the last record; a symbolic label length, pointer byte or type byte of an early
+    # record does not finish in 20 min (every later offset becomes symbolic) and is not generated.
+    SYMB_OK = {'q_opt2': (7, 11, 37, 41), 'r_a_aaaa': (7, 11, 57), 'r_cname_chain': (7, 11, 57), 'r_mx_soa': (7, 11), 'r_optmid': (7, 11)}
+    for skn in ('q_opt2', 'r_a_aaaa', 'r_cname_chain', 'r_mx_soa', 'r_optmid'):
         pk = byname[skn]
         for k, (pos, what) in enumerate(symbytes(pk)):
+            if pos not in SYMB_OK[skn]:
+                continue
             fam.append(dict(name="symb_%s_%d" % (skn, pos), body="p_parse::parse_symbyte::<_, skel_gen::%s, %d>" % (camel(skn), pos),
-                            props=["C01", "C02", "C18"], tier='thorough', est=200, timeout=1200, mem_gb=24,
+                            props=["C01", "C02", "C18"], tier='quick' if skn in ('q_opt2', 'r_a_aaaa') else 'rotate', est=60, timeout=900, mem_gb=24,
                             bound="DNSSector::parse vs the policy oracle with byte %d (%s) taking all 256 values | skeleton %s (%d bytes): %s; label characters concrete, other payload symbolic, error paths explored" % (pos, what, pk.name, len(pk.cells), pk.desc),
                             funcs=["DNSSector::parse", "DNSSector::parse_rr", "DNSSector::parse_opt", "Compress::check_compressed_name", "DNSSector::check_uncompressed_name"],
                             unwind=len(pk.cells) + 12, fs=max(300, len(pk.cells) + 40)))
